@@ -266,6 +266,9 @@ def handleMk (st : St) (k : Nat) (kindFull : String) (args : List String) : St Ã
   | "qvx" =>
     let vals := args.map int!
     mkResult st k (do let q â† QV.fromIter vals; pure (.qv q (vals.map (fun v => (v % 4).toNat))))
+  | "qvfilt" =>
+    let vals := (args.filter (fun x => !x.startsWith "x")).map int!
+    mkResult st k (do let q â† QV.fromIter vals; pure (.qv q (vals.map (fun v => (v % 4).toNat))))
   | "qvchain" =>
     let vals := (args.drop 1).map int!
     mkResult st k (do let q â† QV.fromIter vals; pure (.qv q (vals.map (fun v => (v % 4).toNat))))
@@ -422,7 +425,6 @@ partial def handleQ (st : St) (k : Nat) (q : String) (args : List String) : Stri
   if q == "debug" then
     (match getSlot st k with
      | .err _ => "E" | .empty => "bad-slot"
-     | .qwt .. => "bad-op" | .hqwt .. => "bad-op" | .wt .. => "bad-op"
      | _ => "U|U")
   else
   match getSlot st k with
